@@ -510,6 +510,40 @@ fn c01_c08_scenario(name: &'static str, progs: Vec<Vec<COp>>, check_order: bool,
                 }
             }
         }
+        // every delivery carries the id that Publish returned for THAT message: client k's j-th message has the payload
+        // "c<k>-<j>", and its id is the j-th id of one of client k's Publish responses
+        {
+            let mut returned: BTreeMap<(usize, usize), BTreeSet<String>> = BTreeMap::new();
+            for c in &calls {
+                if let (COp::Publish(..), R::Ids(Ok(ids))) = (&c.op, &c.result) {
+                    for (j, id) in ids.iter().enumerate() {
+                        returned.entry((c.client, j)).or_default().insert(id.clone());
+                    }
+                }
+            }
+            let mut delivered: Vec<(Vec<u8>, String)> = vec![];
+            for c in &calls {
+                if let R::Msgs(Ok(v)) = &c.result {
+                    delivered.extend(v.iter().map(|m| (m.data.clone(), m.msg_id.clone())));
+                }
+            }
+            for v in w.drained.values() {
+                delivered.extend(v.iter().map(|m| (m.data.clone(), m.msg_id.clone())));
+            }
+            for (data, id) in &delivered {
+                let txt = String::from_utf8_lossy(data).to_string();
+                if let Some(rest) = txt.strip_prefix('c') {
+                    let mut it = rest.split('-');
+                    if let (Some(Ok(k)), Some(Ok(j))) = (it.next().map(|x| x.parse::<usize>()), it.next().map(|x| x.parse::<usize>())) {
+                        if let Some(ids) = returned.get(&(k, j)) {
+                            if !ids.contains(id) {
+                                return ScenarioOut::viol(format!("{}/delivered-id-is-not-the-one-publish-returned", name), format!("the message with payload {:?} was delivered with id {}, but Publish returned {:?} for it: {}", txt, id, ids, key));
+                            }
+                        }
+                    }
+                }
+            }
+        }
         // ids follow the real-time order of publishes
         for a in &published {
             for b in &published {
